@@ -74,13 +74,33 @@ package push
 //@ func (*Broker).ID
 //@   modifies nothing
 
-// (assumed) collects what the caches of `id` hold and sends it as ONE batch on `responder`, or
-// reports false having sent nothing; it does not touch the responder registry
+// send: collects what the caches of `id` hold and sends it as ONE batch on `responder`, or
+// reports false having sent nothing (so the responder can be registered and used later); an empty
+// collection is never sent as a batch; it does not touch the responder registry
 //@ func (*Broker).send
+//@   prop C19
+//@   flag typeassert=panic
 //@   havoc
+//@   requires b != nil
 //@   modifies ghost.sm_has[*], ghost.sm_val[*], ghost.chansent[responder], ghost.chanlen[responder], ghost.spawned
-//@   ensures result ==> ghost.chansent[responder] == old(ghost.chansent[responder]) + 1
-//@   ensures !result ==> ghost.chansent[responder] == old(ghost.chansent[responder])
+//@   ensures [one_batch_or_nothing] ghost.chansent[responder] == old(ghost.chansent[responder]) + ite(result, 1, 0)
+//@   atsend [only_on_the_pollers_responder] ch == responder
+//@   atsend [an_empty_collection_is_never_sent_as_a_batch] sent == nil || len(sent) > 0
+
+// one cache of the client: whatever is taken from it goes into the batch under its own topic, in
+// cache order (the very slice), and the cache is left empty: moved, neither copied nor dropped
+//@ func (*Broker).send$1
+//@   prop C19
+//@   flag typeassert=panic
+//@   havoc
+//@   results cont
+//@   requires result != nil
+//@   modifies ghost.sm_has[*], ghost.sm_val[*], ghost.held[*]
+//@   ensures [every_cache_is_visited] cont
+//@   ensures [what_is_taken_goes_into_the_batch_under_its_topic] as(value, *MessageCache) != nil && old(len(as(value, *MessageCache).m)) > 0 ==>
+//@       haskey(result, topic) && arr(result[topic]) == old(arr(as(value, *MessageCache).m)) &&
+//@       off(result[topic]) == old(off(as(value, *MessageCache).m)) && len(result[topic]) == old(len(as(value, *MessageCache).m))
+//@   ensures [the_cache_is_left_empty] as(value, *MessageCache) != nil ==> len(as(value, *MessageCache).m) == 0
 
 //@ func (*Broker).doHeartBeat
 //@   havoc
